@@ -628,7 +628,7 @@ func (g *gen) ops(r *node, global bool, s []rune) []opv {
 		S := jsStr(subj)
 		C := cUnits(subj)
 		//           exec test setLI match search split replS replF props new ident select replStr
-		ws := []int{30, 18, 14, 8, 6, 9, 8, 8, 3, 8, 2, 8, 5}
+		ws := []int{30, 18, 14, 8, 6, 9, 8, 8, 3, 12, 2, 9, 5}
 		if global {
 			ws[2] = 22
 		}
@@ -678,20 +678,34 @@ func (g *gen) ops(r *node, global bool, s []rune) []opv {
 		case 8:
 			ops = append(ops, opv{"out.push(r.source, r.global, r.ignoreCase, r.multiline, String(r)); li();", "OProps"})
 		case 9:
-			mode := g.r.Intn(4)
+			mode := g.r.Intn(10)
 			ng2, ni2, nm2 := g.r.Intn(2) == 0, g.r.Intn(3) == 0, g.r.Intn(3) == 0
+			li0, xq, distinct := "c.lastIndex", "false", "true"
 			var mk string
 			switch mode {
 			case 0:
-				mk = "new RegExp(r)"
+				mk = "var c=new RegExp(r);"
 			case 1:
-				mk = "new RegExp(r, undefined)"
+				mk = "var c=new RegExp(r, undefined);"
 			case 2:
-				mk = fmt.Sprintf("RegExp(r.source, %q)", flagStr(ng2, ni2, nm2))
-			default:
-				mk = fmt.Sprintf("new RegExp(r.source, %q)", flagStr(ng2, ni2, nm2))
+				mk = fmt.Sprintf("var c=RegExp(r.source, %q);", flagStr(ng2, ni2, nm2))
+			case 3:
+				mk = fmt.Sprintf("var c=new RegExp(r.source, %q);", flagStr(ng2, ni2, nm2))
+			case 4: // the constructing expression (a literal in half of the cases) evaluated again
+				mk = "var c=mk();"
+			case 5: // ... in a closure created per call
+				mk = "var c=mkc()();"
+			case 6: // ... twice in a loop body
+				mk = "var cs=mkl(); var c=cs[1][0];"
+				li0, xq, distinct = "cs[1][2]", "cs[1][1]", "cs[0][0]!==c"
+			case 7: // ... by eval of the same text
+				mk = "var c=eval(ctorText);"
+			case 8: // ... by a compiled Script run again on this runtime
+				mk = "var c=rerun();"
+			default: // ... wrapped in the copy constructor
+				mk = "var c=new RegExp(mk());"
 			}
-			ops = append(ops, opv{"var c=" + mk + "; R.push(c); out.push(c===r, c.source, c.global, c.ignoreCase, c.multiline, c.lastIndex, ['source','global','ignoreCase','multiline','lastIndex'].every(function(k){return c.hasOwnProperty(k)})); li();",
+			ops = append(ops, opv{mk + " out.push(" + distinct + "&&R.every(function(x){return x!==c}), c.source, c.global, c.ignoreCase, c.multiline, " + li0 + ", ['source','global','ignoreCase','multiline','lastIndex'].every(function(k){return c.hasOwnProperty(k)}), c.hasOwnProperty('xp')||" + xq + "); c.xp=1; R.push(c); li();",
 				fmt.Sprintf("(ONew %d %s %s %s)", mode, Cbool(ng2), Cbool(ni2), Cbool(nm2))})
 		case 10:
 			ops = append(ops, opv{"var en='none'; try{new RegExp(r,'g')}catch(e){en=e.name} out.push(RegExp(r)===r, RegExp(r, undefined)===r, en); li();", "OIdent"})
@@ -823,18 +837,26 @@ func (g *gen) runSeq(c seqCase, bucket string) {
 	fl := flagStr(c.g, c.i, c.m)
 	var src strings.Builder
 	src.WriteString(prelude)
+	// the constructing expression is evaluated through mk(), so that the same literal /
+	// constructor call is evaluated again whenever a history asks for a further object
+	var ctor string
 	switch {
 	case c.literal && c.mode == 1:
-		fmt.Fprintf(&src, "var r0 = /%s/%s; var r = new RegExp(r0);\n", pat, fl)
+		ctor = fmt.Sprintf("new RegExp(/%s/%s)", pat, fl)
 	case c.literal:
-		fmt.Fprintf(&src, "var r = /%s/%s;\n", pat, fl)
+		ctor = fmt.Sprintf("/%s/%s", pat, fl)
 	case c.mode == 1:
-		fmt.Fprintf(&src, "var r = RegExp(%s, %q);\n", JSStr(Units(pat)), fl)
+		ctor = fmt.Sprintf("RegExp(%s, %q)", JSStr(Units(pat)), fl)
 	case c.mode == 2:
-		fmt.Fprintf(&src, "var r = RegExp(new RegExp(%s, %q));\n", JSStr(Units(pat)), fl)
+		ctor = fmt.Sprintf("RegExp(new RegExp(%s, %q))", JSStr(Units(pat)), fl)
 	default:
-		fmt.Fprintf(&src, "var r = new RegExp(%s, %q);\n", JSStr(Units(pat)), fl)
+		ctor = fmt.Sprintf("new RegExp(%s, %q)", JSStr(Units(pat)), fl)
 	}
+	fmt.Fprintf(&src, "function mk(){ return %s; }\n", ctor)
+	fmt.Fprintf(&src, "function mkc(){ return function(){ return %s; }; }\n", ctor)
+	fmt.Fprintf(&src, "function mkl(){ var cs=[]; for(var q=0;q<2;q++){ var t=%s; cs.push([t, t.hasOwnProperty('xq'), t.lastIndex]); t.xq=1; t.lastIndex=2; } cs[1][0].lastIndex=0; return cs; }\n", ctor)
+	fmt.Fprintf(&src, "var ctorText=%s;\n", JSStr(Units("("+ctor+")")))
+	src.WriteString("var r = mk(); r.xp = 1;\n")
 	src.WriteString("var R = [r];\ntry {\n")
 	coqOps := make([]string, len(c.ops))
 	for k, o := range c.ops {
@@ -843,6 +865,16 @@ func (g *gen) runSeq(c seqCase, bucket string) {
 	}
 	src.WriteString("} catch (e) { out.push('EXC:' + e.name); }\n")
 	vm := otto.New()
+	// a compiled Script that evaluates the constructing expression, run again on this runtime
+	if script, err := vm.Compile("", "("+ctor+")"); err == nil {
+		_ = vm.Set("rerun", func(call otto.FunctionCall) otto.Value {
+			v, err := vm.Run(script)
+			if err != nil {
+				return otto.UndefinedValue()
+			}
+			return v
+		})
+	}
 	o := RunJS(vm, src.String())
 	var obs, leg []string
 	var txt string
@@ -1028,7 +1060,7 @@ func (g *gen) badCase() {
 
 func runC10(env *Env) {
 	env.Import = "Otto.C10.Corr"
-	env.Rule = "pattern trees of the portable subset (literals, escapes \\xHH \\uHHHH \\cX, classes, \\d\\w\\s\\b, groups, alternation, greedy/lazy quantifiers, anchors, g/i/m) printed in ES5 syntax as literal or constructor argument; subjects over {a,b,A,1,-,e-acute,\\n,...} sampled from the tree or random; histories of 1-6 calls (exec, test, lastIndex assignment at unit/byte boundaries, match, search, split with limit, replace with $-text or a logging function whose result contains $-patterns, replace with a string pattern) over a growing set of RegExp objects (new RegExp(r), new RegExp(r, undefined), RegExp(r.source, flags) made from objects in any state, identity of RegExp(r), own properties and lastIndex of the copy, switching between copy and original); token soup and trees with look-ahead/back-references through parser.TransformRegExp; malformed mutations and flags through the constructor. non-trivial = history longer than one call or pattern with a quantifier, group, class, alternation or escape; every translation/constructor case"
+	env.Rule = "pattern trees of the portable subset (literals, escapes \\xHH \\uHHHH \\cX, classes, \\d\\w\\s\\b, groups, alternation, greedy/lazy quantifiers, anchors, g/i/m) printed in ES5 syntax as literal or constructor argument; subjects over {a,b,A,1,-,e-acute,\\n,...} sampled from the tree or random; histories of 1-6 calls (exec, test, lastIndex assignment at unit/byte boundaries, match, search, split with limit, replace with $-text or a logging function whose result contains $-patterns, replace with a string pattern) over a growing set of RegExp objects (new RegExp(r), new RegExp(r, undefined), RegExp(r.source, flags) made from objects in any state, identity of RegExp(r), own properties and lastIndex of the copy, the constructing literal / constructor call evaluated again in a function, a per-call closure, a loop body, eval, a compiled Script run again, and under new RegExp(...), each time observing distinctness from every earlier object, lastIndex 0, own properties and absence of expando properties; switching between all objects made so far); token soup and trees with look-ahead/back-references through parser.TransformRegExp; malformed mutations and flags through the constructor. non-trivial = history longer than one call or pattern with a quantifier, group, class, alternation or escape; every translation/constructor case"
 	g := &gen{env: env, r: env.Rng}
 	g.pinned()
 	for env.Count() < env.N {
